@@ -213,6 +213,12 @@ func (r *Report) Finish(verifDir string, prog *Program, start time.Time, seed in
 		}
 	}
 	replayDir := filepath.Join(verifDir, "evidence", "replay")
+	// replay files describe the violations of THIS run: drop those of earlier runs of the property
+	if old, err := filepath.Glob(filepath.Join(replayDir, r.Prop+"-*.json")); err == nil {
+		for _, f := range old {
+			os.Remove(f)
+		}
+	}
 	exit := 0
 	if len(fails) > 0 {
 		exit = 1
